@@ -44,7 +44,10 @@ def _py_body(fn: ast.FunctionDef) -> list[dict]:
             v = st.value
             if isinstance(v, ast.Call) and v.args and isinstance(v.args[0], (ast.List, ast.Tuple)):
                 nret = len(v.args[0].elts)
-            stmts.append({"k": "return", "nret": nret, "uses": _uses(st.value) if st.value is not None else []})
+            rets = []
+            if nret >= 0:
+                rets = [e.id if isinstance(e, ast.Name) else "?" for e in v.args[0].elts]
+            stmts.append({"k": "return", "nret": nret, "rets": rets, "uses": _uses(st.value) if st.value is not None else []})
             continue
         if not isinstance(st, ast.Assign) or len(st.targets) != 1:
             stmts.append({"k": "other", "uses": _uses(st), "src": ast.dump(st)[:80]})
@@ -122,7 +125,7 @@ def c_functions(code: str) -> dict[str, dict]:
                 stmts.append({"k": "def", "name": mm.group(1), "uses": _c_idents(mm.group(2)), "decl": False})
                 continue
             stmts.append({"k": "other", "uses": _c_idents(s), "src": s[:80]})
-        stmts.append({"k": "return", "nret": -1, "uses": []})
+        stmts.append({"k": "return", "nret": -1, "rets": [], "uses": []})
         argnames = [a.split()[-1].lstrip("*") for a in args.split(",") if a.strip()]
         out[name] = {"args": argnames, "stmts": stmts, "raw_args": args}
     return out
